@@ -33,6 +33,9 @@ func DefsPrivate(private map[string]bool) []*schema.StoreDef {
 func Defs() []*schema.StoreDef {
 	owners := &schema.StoreDef{Type: Owners, BasePath: []string{"stores"},
 		Fields: []schema.Field{{Name: "name", Kind: schema.KStr}, {Name: "age", Kind: schema.KI64}, {Name: "active", Kind: schema.KBool}, {Name: "tags", Kind: schema.KList},
+			// favlist: a plain list of thing ids the application keeps itself (no index behind it); it may hold ids
+			// that name nothing, the empty string among them
+			{Name: "favlist", Kind: schema.KList, FK: Things},
 			{Name: "things", Kind: schema.KList, FK: Things, Derived: true}}}
 	others := &schema.StoreDef{Type: Others, BasePath: []string{"stores"},
 		Fields: []schema.Field{{Name: "name", Kind: schema.KStr}, {Name: "rank", Kind: schema.KI64}, {Name: "tags", Kind: schema.KList},
@@ -64,6 +67,11 @@ type Row struct {
 
 type World struct {
 	Rows map[string]map[string]*Row // store -> id -> row
+	// phantomRows selects the reading of a sub-query over a list which holds an id that names no entity: false = the
+	// id is stepped over, true = the predicate is evaluated for it on a row without fields. Match judges a filter only
+	// when both readings give the same answer.
+	phantomRows bool
+	sawPhantom  bool
 }
 
 func (w *World) Ids(store string) []string {
@@ -102,7 +110,7 @@ type SymInfo struct {
 var symbols = map[string]map[string]SymInfo{
 	Things: {"id": {Type: TStr}, "uk": {Type: TStr}, "s": {Type: TStr}, "ism": {Type: TInt}, "ibig": {Type: TInt}, "flt": {Type: TFloat}, "b": {Type: TBool}, "t": {Type: TTime}, "grp": {Type: TStr},
 		"tags": {Type: TStr, Set: true}, "nums": {Type: TStr, Set: true}, "owner": {Type: TStr, Target: Owners}, "friends": {Type: TStr, Set: true, Target: Others}, "meta": {Type: TAny, Map: true}},
-	Owners: {"kidlist": {Type: TStr, Set: true, Target: Things, KidOnly: true}, "id": {Type: TStr}, "name": {Type: TStr}, "age": {Type: TInt}, "active": {Type: TBool}, "tags": {Type: TStr, Set: true}, "things": {Type: TStr, Set: true, Target: Things}},
+	Owners: {"kidlist": {Type: TStr, Set: true, Target: Things, KidOnly: true}, "favlist": {Type: TStr, Set: true, Target: Things}, "id": {Type: TStr}, "name": {Type: TStr}, "age": {Type: TInt}, "active": {Type: TBool}, "tags": {Type: TStr, Set: true}, "things": {Type: TStr, Set: true, Target: Things}},
 	Others: {"id": {Type: TStr}, "name": {Type: TStr}, "alias": {Type: TStr, NotNil: true}, "rank": {Type: TInt}, "tags": {Type: TStr, Set: true}, "things": {Type: TStr, Set: true, Target: Things}},
 }
 
@@ -288,5 +296,14 @@ func (w *World) DeriveBackRefs() {
 	// child data
 	for _, o := range w.Rows[Owners] {
 		o.V["kidlist"] = append([]string(nil), o.V["things"].([]string)...)
+		o.V["favlist"] = append([]string(nil), o.V["things"].([]string)...)
+		if core.HashString(o.Id)%3 != 0 {
+			o.V["favlist"] = append(o.V["favlist"].([]string), "")
+		}
+		if core.HashString(o.Id)%2 == 0 {
+			// a list of ids is a list of strings: it may hold the empty string (which names no entity, and sorts in
+			// front of every id)
+			o.V["kidlist"] = append(o.V["kidlist"].([]string), "")
+		}
 	}
 }
